@@ -399,6 +399,10 @@ theorem invF_move (s : St) (m : Move) (hu : InvU s) (h : InvF s) : InvF (move s 
   case intrBegin => split <;> first | exact invF_frame s _ h rfl rfl | exact h
   case intrEnd => split <;> first | exact invF_frame s _ h rfl rfl | exact h
   case step inp o => exact invF_step s inp o h
+  case clear =>
+    split
+    · intro i c reg hc; simp [clearAll] at hc
+    · exact h
 
 theorem invF_reach (ms : List Move) : InvF (reach ms) := by
   have : ∀ (s : St), Inv s → InvF s → InvF (runMoves s ms) := by
